@@ -50,6 +50,11 @@ def make_inputs(tier, seed):
             r = rng.random()
             if r < 0.3:
                 ops.append(["mods", rng.randint(1, 3), rng.randint(0, 2)])      # insert k modules, j of them with pending glue
+            elif r < 0.38:
+                # a sys.modules entry that is not an ordinary module: None (import blocked), an object without
+                # __dict__, a lazy module whose attribute access raises (importlib.util.LazyLoader whose deferred
+                # import fails) -- legal, and must not make an extraction raise or behave differently
+                ops.append(["oddmod", rng.choice(["none", "nodict", "lazy_import_error", "lazy_runtime_error", "lazy_value_error"])])
             elif r < 0.45:
                 ops.append(["trick", rng.choice([None, True, False])])
             elif r < 0.55:
@@ -58,6 +63,24 @@ def make_inputs(tier, seed):
                 ops.append(["extract", rng.random() < 0.7, rng.random() < 0.3, rng.choice(["gen", "coro", "running"])])
         ops.append(["extract", True, False, "gen"])
         yield {"ops": ops, "n": k}
+
+
+def _odd_module(kind, name):
+    import types
+    if kind == "none":
+        return None
+    if kind == "nodict":
+        class Slotted(object):
+            __slots__ = ()
+        return Slotted()
+    exc = {"lazy_import_error": ModuleNotFoundError, "lazy_runtime_error": RuntimeError, "lazy_value_error": ValueError}[kind]
+
+    class Lazy(types.ModuleType):
+        def __getattribute__(self, attr):
+            if attr in ("__class__", "__name__"):
+                return object.__getattribute__(self, attr)
+            raise exc("deferred import of %s failed" % object.__getattribute__(self, "__name__"))
+    return Lazy(name)
 
 
 def _hidden(ids):
@@ -106,6 +129,10 @@ def run_case(desc):
                         sys.modules.pop(name, None)
                     sys.modules[name] = types.ModuleType(name)
                     added.append(name)
+            elif op[0] == "oddmod":
+                name = "verif_fake_%d_%d" % (desc["n"], len(added))
+                sys.modules[name] = _odd_module(op[1], name)
+                added.append(name)
             elif op[0] == "rm":
                 if added:
                     sys.modules.pop(added.pop(), None)
